@@ -293,7 +293,7 @@ def write_plotfile(path, AP, cfg, reg=None, values=None, mm_override=None):
     time = AP.get("time", cfg.time if cfg.time is not None else 0.0)
     lo, hi = geo(AP, cfg)
     tb = " " if cfg.trailing_blank else ""
-    with open(os.path.join(path, "Header"), "w") as h:
+    with open(os.path.join(path, "Header"), "w", encoding="utf-8") as h:
         h.write("HyperCLaw-V1.1\n")
         h.write("%d\n" % nf)
         for f in AP["fields"]:
@@ -380,8 +380,8 @@ def write_plotfile(path, AP, cfg, reg=None, values=None, mm_override=None):
             open(p, "w").write(txt)
     if not getattr(cfg, "final_newline", True):
         p = os.path.join(path, "Header")
-        txt = open(p).read().rstrip("\n")
-        open(p, "w").write(txt)
+        txt = open(p, encoding="utf-8").read().rstrip("\n")
+        open(p, "w", encoding="utf-8").write(txt)
     return reg
 
 
@@ -476,6 +476,8 @@ NAME_POOLS = [
     # names that differ only by the CASE of their letters (PeleC's Temp next to PeleLMeX's temp): distinct fields; the unknown
     # name is a known one in another case
     (["Temp", "temp", "TEMP", "p", "P", "rho", "Rho", "y(h2)"], "Y(H2)"),
+    # letters outside ASCII (the header is UTF-8 text): the name a tool writes, reads back or looks up is the name, letter for letter
+    (["temp\u00e9rature", "\u0394p", "\u03bc_t", "temp", "\u0394T", "\u03c1", "Y(H\u2082)", "\u00e9"], "temp\u00e9"),
 ]
 
 
